@@ -75,6 +75,7 @@ func init() {
 }
 
 func runC01(c *Ctx) {
+	procStateFresh(c, "S1-per-packet-state")
 	c01Core(c, "")
 }
 
